@@ -3,14 +3,9 @@
    result undefined otherwise); checked ones fail with NotU32 exactly outside it. *)
 From Coq Require Import ZArith List Bool Arith Lia String.
 From MV Require Import Base.Field Core.Op Core.Rpo Vm.Pure Vm.PureProps Gen.AsmGen Asm.Instr
-  Asm.StackInstr Asm.FieldInstr.
+  Asm.SpecDefs Asm.StackInstr Asm.FieldInstr.
 Import ListNotations.
 Open Scope Z_scope.
-
-Definition u32b (x : Z) : bool := x <? TWO32.
-Definition g1 (xs : list Z) : bool := u32b (nz xs 0).
-Definition g2 (xs : list Z) : bool := u32b (nz xs 0) && u32b (nz xs 1).
-Definition g3 (xs : list Z) : bool := u32b (nz xs 0) && u32b (nz xs 1) && u32b (nz xs 2).
 
 Lemma hi32_div x : hi32 x = x / TWO32.
 Proof. unfold hi32. rewrite Z.shiftr_div_pow2 by lia. reflexivity. Qed.
@@ -118,9 +113,6 @@ Proof.
 Qed.
 
 (* bitwise: checked *)
-Definition u32_pre2 (xs : list Z) : option perr :=
-  if negb (u32max_ok (nz xs 1)) then Some (PNotU32 (nz xs 1) 0)
-  else if negb (u32max_ok (nz xs 0)) then Some (PNotU32 (nz xs 0) 0) else None.
 Theorem u32and_ok : instr_spec (ops_of "u32and") 2 u32_pre2 (fun xs => [Z.land (nz xs 1) (nz xs 0)]).
 Proof. unfold u32_pre2. solve_instr idtac. Qed.
 Theorem u32xor_ok : instr_spec (ops_of "u32xor") 2 u32_pre2 (fun xs => [Z.lxor (nz xs 1) (nz xs 0)]).
